@@ -12,7 +12,18 @@ import (
 	"testing"
 	"time"
 
+	"github.com/ipfs/go-datastore"
+	dssync "github.com/ipfs/go-datastore/sync"
+	pubsub "github.com/libp2p/go-libp2p-pubsub"
+	"github.com/libp2p/go-libp2p/core/event"
+	"github.com/libp2p/go-libp2p/core/host"
+	"github.com/libp2p/go-libp2p/core/network"
 	"github.com/libp2p/go-libp2p/core/peer"
+	"github.com/libp2p/go-libp2p/p2p/host/eventbus"
+	"github.com/libp2p/go-libp2p/p2p/net/conngater"
+
+	"github.com/celestiaorg/celestia-node/header"
+	"github.com/celestiaorg/celestia-node/share/shwap/p2p/shrex/shrexsub"
 
 	"github.com/celestiaorg/celestia-node/internal/verifsim"
 )
@@ -142,6 +153,7 @@ func vsPoolWorld(s *verifsim.Sim) {
 		name := fmt.Sprintf("task%d", ti)
 		s.Go(name, func() {
 			for _, o := range ops {
+				s.Note("%s: %s(%s)", name, names[o.kind], o.peer)
 				switch o.kind {
 				case opAdd:
 					p.add(o.peer)
@@ -280,4 +292,259 @@ func vsPoolEnd(s *verifsim.Sim, p *pool, model *vsPoolModel, cancelWaits func())
 	s.Drain(100)
 }
 
-func vsManagerWorld(s *verifsim.Sim) { vsPoolWorld(s) }
+// ------------------------------------------------------------- manager world
+
+type vsNet struct {
+	network.Network
+	closed map[peer.ID]int
+}
+
+func (n *vsNet) ClosePeer(p peer.ID) error { n.closed[p]++; return nil }
+
+type vsHost struct {
+	host.Host
+	id  peer.ID
+	bus event.Bus
+	net *vsNet
+}
+
+func (h *vsHost) ID() peer.ID              { return h.id }
+func (h *vsHost) EventBus() event.Bus      { return h.bus }
+func (h *vsHost) Network() network.Network { return h.net }
+
+type vsHeaderSub struct{ ch chan *header.ExtendedHeader }
+
+func (s *vsHeaderSub) NextHeader(ctx context.Context) (*header.ExtendedHeader, error) {
+	select {
+	case h := <-s.ch:
+		return h, nil
+	case <-ctx.Done():
+		return nil, ctx.Err()
+	}
+}
+func (s *vsHeaderSub) Cancel() {}
+
+func vsManagerWorld(s *verifsim.Sim) {
+	cool := time.Duration(s.Range(1, 2, "cooldown_s")) * time.Second
+	gcEvery := time.Duration(s.Range(2, 4, "gc_s")) * time.Second
+	valTimeout := time.Duration(s.Range(3, 8, "validation_timeout_s")) * time.Second
+	blacklisting := s.Chance(1, 2, "blacklisting")
+	npeers := s.Range(2, 4, "npeers")
+	nvalid := s.Range(1, 3, "nvalid_hashes")
+	nbogus := s.Range(0, 2, "nbogus_hashes")
+	ntasks := s.Range(2, 4, "ntasks")
+	s.Cfg["world"] = "manager"
+	s.Cfg["cooldown"] = cool.String()
+	s.Cfg["gc"] = gcEvery.String()
+	s.Cfg["validation_timeout"] = valTimeout.String()
+	s.Cfg["blacklisting"] = blacklisting
+	s.Cfg["npeers"], s.Cfg["nvalid"], s.Cfg["nbogus"], s.Cfg["ntasks"] = npeers, nvalid, nbogus, ntasks
+
+	bus := eventbus.NewBus()
+	h := &vsHost{id: peer.ID("self"), bus: bus, net: &vsNet{closed: map[peer.ID]int{}}}
+	gater, err := conngater.NewBasicConnectionGater(dssync.MutexWrap(datastore.NewMapDatastore()))
+	if err != nil {
+		panic(err)
+	}
+	m, err := NewManager(Parameters{PoolValidationTimeout: valTimeout, PeerCooldown: cool, GcInterval: gcEvery, EnableBlackListing: blacklisting}, h, gater, "verif")
+	if err != nil {
+		panic(err)
+	}
+	ctx, cancel := context.WithCancel(context.Background())
+	defer cancel()
+	m.cancel = cancel
+	hsub := &vsHeaderSub{ch: make(chan *header.ExtendedHeader, 64)}
+	evsub, err := bus.Subscribe(&event.EvtPeerConnectednessChanged{}, eventbus.BufSize(eventbusBufSize))
+	if err != nil {
+		panic(err)
+	}
+	emitter, err := bus.Emitter(&event.EvtPeerConnectednessChanged{})
+	if err != nil {
+		panic(err)
+	}
+	go m.subscribeHeader(ctx, hsub)
+	go m.subscribeDisconnectedPeers(ctx, evsub)
+	go m.GC(ctx)
+
+	ids := make([]peer.ID, npeers)
+	for i := range ids {
+		ids[i] = peer.ID(fmt.Sprintf("peer%d", i))
+	}
+	type hashInfo struct {
+		hash   []byte
+		height uint64
+		valid  bool
+	}
+	var hashes []hashInfo
+	for i := 0; i < nvalid+nbogus; i++ {
+		b := make([]byte, 32)
+		b[0], b[31] = byte(i+1), 0xAA
+		// heights start at 5 so that "storeFrom" stays 0 and no announcement is stale by construction
+		hashes = append(hashes, hashInfo{hash: b, height: uint64(5 + i), valid: i < nvalid})
+	}
+
+	// ground truth, written at the earliest instant an effect can exist (call start)
+	discovered := map[peer.ID]bool{}
+	announced := map[peer.ID]map[int]bool{}
+	confirmed := map[int]bool{}
+	legit := func(p peer.ID) bool {
+		if discovered[p] {
+			return true
+		}
+		for hi := range announced[p] {
+			if confirmed[hi] {
+				return true
+			}
+		}
+		return false
+	}
+
+	const (
+		mNotify = iota
+		mHeader
+		mDiscover
+		mUndiscover
+		mDisconnect
+		mGetPeer
+	)
+	type mop struct {
+		kind, hash, result int
+		peer               peer.ID
+	}
+	peerCtx, cancelPeers := context.WithCancel(context.Background())
+	defer cancelPeers()
+	timedOut := 0
+	for ti := 0; ti < ntasks; ti++ {
+		nops := s.Range(2, 7, "nops")
+		ops := make([]mop, nops)
+		for i := range ops {
+			ops[i] = mop{kind: s.ChooseW([]int{6, 3, 2, 1, 1, 6}, "op"), hash: s.Choose(len(hashes), "hash"),
+				result: s.ChooseW([]int{2, 2, 2}, "result"), peer: ids[s.Choose(npeers, "peer")]}
+		}
+		name := fmt.Sprintf("task%d", ti)
+		s.Go(name, func() {
+			for _, o := range ops {
+				hi := hashes[o.hash]
+				s.Note("%s: op=%s peer=%s hash%d(valid=%v) result=%d", name, [...]string{"notify", "header", "discover", "undiscover", "disconnect", "getPeer"}[o.kind], o.peer, o.hash, hi.valid, o.result)
+				switch o.kind {
+				case mNotify:
+					wasBlack := m.isBlacklistedPeer(o.peer)
+					if announced[o.peer] == nil {
+						announced[o.peer] = map[int]bool{}
+					}
+					announced[o.peer][o.hash] = true
+					res := m.Validate(ctx, o.peer, shrexsub.Notification{DataHash: hi.hash, Height: hi.height})
+					if wasBlack && res != pubsub.ValidationReject {
+						s.Violate("manager-accepts-blacklisted", "Validate", "notification from blacklisted peer %s got result %v, want reject", o.peer, res)
+					}
+				case mHeader:
+					if !hi.valid {
+						continue
+					}
+					confirmed[o.hash] = true
+					hsub.ch <- &header.ExtendedHeader{RawHeader: header.RawHeader{Height: int64(hi.height), DataHash: hi.hash}}
+				case mDiscover:
+					if !m.isBlacklistedPeer(o.peer) {
+						discovered[o.peer] = true
+					}
+					m.UpdateNodePool(o.peer, true)
+				case mUndiscover:
+					m.UpdateNodePool(o.peer, false)
+				case mDisconnect:
+					_ = emitter.Emit(event.EvtPeerConnectednessChanged{Peer: o.peer, Connectedness: network.NotConnected})
+				case mGetPeer:
+					if !hi.valid {
+						continue // callers hold the header of the hash they ask for
+					}
+					black := map[peer.ID]bool{}
+					for _, id := range ids {
+						black[id] = m.isBlacklistedPeer(id)
+					}
+					confirmed[o.hash] = true
+					pid, done, err := m.Peer(peerCtx, hi.hash, hi.height)
+					s.Note("%s: Peer(hash%d) -> %s err=%v", name, o.hash, pid, err)
+					if err != nil {
+						timedOut++
+						continue
+					}
+					if blacklisting && black[pid] {
+						s.Violate("manager-offers-blacklisted", "Peer", "Peer(hash%d) returned %s, which was blacklisted before the call started", o.hash, pid)
+					}
+					if !announced[pid][o.hash] && !legit(pid) {
+						s.Violate("manager-promotes-unconfirmed", "Peer", "Peer(hash%d) returned %s, which never came from discovery and only announced unconfirmed hashes %v", o.hash, pid, announced[pid])
+					}
+					s.Yield(name + " fetch")
+					switch o.result {
+					case 0:
+						done(ResultNoop)
+					case 1:
+						done(ResultCooldownPeer)
+					case 2:
+						done(ResultBlacklistPeer)
+					}
+				}
+				s.Yield(name + " step")
+			}
+		})
+	}
+
+	stalls := []time.Duration{time.Millisecond, cool, gcEvery, valTimeout + time.Second}
+	for step := 0; step < 500; step++ {
+		ps := s.Settle()
+		alts := s.TaskAlts(ps, 6)
+		if s.Violated() {
+			return
+		}
+		if len(alts) == 0 {
+			if len(s.Unfinished()) == 0 {
+				break
+			}
+			// only natively blocked Peer() waiters are left: let time pass or go to the end phase
+			if step > 60 || s.Chance(1, 3, "enough") {
+				break
+			}
+			s.Pick("idle", []verifsim.Alt{s.StallAlt(stalls[step%len(stalls)], 1)})
+			continue
+		}
+		alts = append(alts, s.StallAlt(stalls[step%len(stalls)], 2))
+		s.Pick("step", alts)
+	}
+
+	// fair end phase: every blocked Peer() caller must be woken by a peer that becomes available.
+	// Tasks go on with their remaining operations (which may blacklist or cool down the rescuer),
+	// so a fresh rescuer is offered each round; the number of rounds is bounded by the task lengths.
+	s.Drain(5000)
+	for round := 0; round < 8*ntasks && len(s.Unfinished()) > 0; round++ {
+		rescue := peer.ID(fmt.Sprintf("rescue%d", round))
+		discovered[rescue] = true
+		s.Do("rescue", func() { m.UpdateNodePool(rescue, true) })
+		s.Drain(5000)
+		if un := s.Unfinished(); len(un) > 0 {
+			if rep, sig := s.BlockedReport(); sig != "" {
+				s.Violate("manager-deadlock", sig, "tasks %v never finish; blocked: %s", un, rep)
+				return
+			}
+		}
+	}
+	if un := s.Unfinished(); len(un) > 0 {
+		rep, _ := s.BlockedReport()
+		s.Violate("manager-waiter-not-woken", "Peer", "tasks %v still blocked although fresh discovered peers were added %d times; %s", un, 8*ntasks, rep)
+		return
+	}
+	if timedOut > 0 {
+		s.Violate("manager-peer-error", "Peer", "Peer returned an error %d times although its context was never cancelled", timedOut)
+	}
+	cancelPeers()
+	cancel()
+	s.Drain(5000)
+	select {
+	case <-m.headerSubDone:
+	default:
+		s.Violate("manager-stop-hangs", "subscribeHeader", "header subscription loop did not end after cancellation")
+	}
+	select {
+	case <-m.disconnectedPeersDone:
+	default:
+		s.Violate("manager-stop-hangs", "subscribeDisconnectedPeers", "disconnect loop did not end after cancellation")
+	}
+}
